@@ -331,6 +331,16 @@ func runC18Reg(c *Ctx) {
 							}
 							mc.SendLine("PING :wsync")
 							mc.WaitLineFrom(WaitLong, 0, func(l string) bool { return l == "PONG :wsync" })
+							if ordinal == 3 {
+								// the nick the server has just welcomed the client under is its current nick
+								if me := conn.Me(); me == nil || me.Nick != cur {
+									got := "<nil>"
+									if me != nil {
+										got = me.Nick
+									}
+									c.R.Violate(rig.Violation{Sig: "c18|current-nick-after-welcome", Detail: fmt.Sprintf("connect 3 registered as %q and was welcomed as %q; the client now calls itself %q (tracking=%v)", cur, cur, got, tracking), Case: Case("reg", idx)})
+								}
+							}
 							if inHandler && ordinal < 3 {
 								atomic.StoreInt32(&again, 1)
 								mc.SendEOF()
@@ -340,6 +350,12 @@ func runC18Reg(c *Ctx) {
 							if !CloseWatched(conn) {
 								c.R.Inconcl(fmt.Sprintf("%s: Close did not return", Case("reg", idx)))
 								break
+							}
+							if ordinal == 2 && idx%3 == 1 {
+								// while disconnected the application picks another nick through Config(): the next
+								// registration asks for it, and once the server has confirmed it it is the client's nick
+								cur = fmt.Sprintf("appset%d", idx%5)
+								conn.Config().Me.Nick = cur
 							}
 						}
 						if idx%41 == 0 {
